@@ -29,6 +29,7 @@ std::vector<Region> regions(const dec::File & f) {
 }
 
 long g_calls_after_error = 0, g_persistent_passes = 0;
+const char * g_base_path = nullptr;   // the undamaged file of the current case (still in the VFS), for call-by-call comparison
 struct Fault { int kind; size_t off; uint32_t a, b; };   // kind 0: flip bit a at byte off; 1: zero range [off, off+a); 2: random overwrite range (seed b)
 
 void apply_faults(std::vector<uint8_t> & b, const std::vector<Fault> & fs) {
@@ -63,9 +64,14 @@ std::string judge_persistent(const Dump & d0, const char * ap, uint64_t seed, bo
         for (int k = 0; k < N_DTYPES; ++k) if (DTYPES[k].code == (y.def.data_type & 0xffff)) dt = &DTYPES[k];
         if (!dt) continue;
         int64_t len = 0;
-        if (jls_rd_fsr_length(rd.rd, (uint16_t) id, &len)) { detected = true; continue; }
+        bool len_failed_once = false;
+        if (jls_rd_fsr_length(rd.rd, (uint16_t) id, &len)) {
+            // a failed length call must not leave a half-updated length behind: ask again
+            detected = true; len_failed_once = true; ++calls_after_error;
+            if (jls_rd_fsr_length(rd.rd, (uint16_t) id, &len)) continue;
+        }
         if (len > y.len) { res = strf("signal %d: length %lld from the altered file, %lld originally", id, (long long) len, (long long) y.len); break; }
-        if (!repaired && len != y.len) { res = strf("signal %d: length %lld from the altered file on a second open, %lld originally (no repair took place)", id, (long long) len, (long long) y.len); break; }
+        if (!repaired && len != y.len) { res = strf("signal %d: jls_rd_fsr_length%s returns %lld for the altered file, %lld originally (no repair took place)", id, len_failed_once ? " (asked again after it had failed)" : "", (long long) len, (long long) y.len); break; }
         BitVec base(dt->bits); base.bytes = y.samples; base.n = y.len;
         uint64_t rs = mix64(seed, (uint64_t) id);
         uint32_t spd = y.def.samples_per_data ? y.def.samples_per_data : 64;
@@ -106,6 +112,40 @@ std::string judge_persistent(const Dump & d0, const char * ap, uint64_t seed, bo
                 if (had_error) ++calls_after_error;
                 if (rc) { detected = true; had_error = true; continue; }
                 for (size_t j = 0; j < v.size(); ++j) if (!dbl_same(v[j], b.v[j])) { res = strf("signal %d: statistics(%lld,%lld,%lld) field %zu = %.12g from the altered file, %.12g originally (reader instance that had reported errors before)", id, (long long) b.rq.start, (long long) b.rq.incr, (long long) b.rq.count, j, v[j], b.v[j]); break; }
+            }
+        }
+        if (!res.empty()) break;
+        // sample id <-> UTC conversions (they load the signal's UTC entries on first use): call by call against a reader of
+        // the undamaged file; every call is made twice, so that a table left half-loaded by a failed call would show
+        if (g_base_path && y.utcs.size() >= 2 && !repaired) {
+            Reader rb;
+            if (0 == rb.open(g_base_path)) {
+                for (int q = 0; q < 9 && res.empty(); ++q) {
+                    // inside the signal, at the last / first / middle anchor and far behind the last anchor (extrapolation uses the
+                    // last segment, so a table that lost its tail answers differently there)
+                    int64_t off = (int64_t) y.def.sample_id_offset;
+                    int64_t sid = (q == 0) ? 0 : (q == 1) ? y.len - 1 :
+                                  (q == 2) ? y.utcs.back().id - off : (q == 3) ? y.utcs.back().id - off + 100000 :
+                                  (q == 4) ? y.utcs.front().id - off : (q == 5) ? y.utcs[y.utcs.size() / 2].id - off :
+                                  (int64_t) (mix64(seed, 900 + (uint64_t) q) % (uint64_t) (y.len > 0 ? y.len : 1));
+                    int64_t tb = 0; int32_t rcb = jls_rd_sample_id_to_timestamp(rb.rd, (uint16_t) id, sid, &tb);
+                    for (int attempt = 0; attempt < 2 && res.empty(); ++attempt) {
+                        int64_t ta = 0; int32_t rca = jls_rd_sample_id_to_timestamp(rd.rd, (uint16_t) id, sid, &ta);
+                        if (rca) { detected = true; ++calls_after_error; continue; }
+                        if (!rcb && ta != tb) res = strf("signal %d: jls_rd_sample_id_to_timestamp(%lld)%s returns %lld for the altered file, %lld originally", id, (long long) sid, attempt ? " (asked again after it had failed)" : "", (long long) ta, (long long) tb);
+                        break;
+                    }
+                    if (!rcb && res.empty()) {
+                        int64_t sb = 0; int32_t rcb2 = jls_rd_timestamp_to_sample_id(rb.rd, (uint16_t) id, tb, &sb);
+                        for (int attempt = 0; attempt < 2 && res.empty(); ++attempt) {
+                            int64_t sa = 0; int32_t rca = jls_rd_timestamp_to_sample_id(rd.rd, (uint16_t) id, tb, &sa);
+                            if (rca) { detected = true; ++calls_after_error; continue; }
+                            if (!rcb2 && sa != sb) res = strf("signal %d: jls_rd_timestamp_to_sample_id(%lld)%s returns %lld for the altered file, %lld originally", id, (long long) tb, attempt ? " (asked again after it had failed)" : "", (long long) sa, (long long) sb);
+                            break;
+                        }
+                    }
+                }
+                rb.close();
             }
         }
         if (!res.empty()) break;
@@ -197,6 +237,7 @@ CaseOutcome prop_execute(const std::string & case_json) {
     vfs::reset();
     Model m;
     const char * path = "c04.jls";
+    g_base_path = path;
     ExecResult er = run_program(p, path, m, true);
     if (!er.err.empty() || er.close_rc) { oc.fail("write", er.err); vfs::reset(); return oc; }
     std::vector<uint8_t> base = vfs::get(path);
@@ -319,15 +360,33 @@ std::string prop_enumerate(const std::string & tier, const std::string & outdir)
     // (2) every single-bit flip of every bit of small files
     int nfiles = tier == "thorough" ? 4 : 1;
     long long flips = 0;
-    for (int fi = 0; fi < nfiles && viol.a.empty(); ++fi) {
+    for (int fi = -1; fi < nfiles && viol.a.empty(); ++fi) {
         std::vector<uint32_t> tape;
         for (int k = 0; k < 400; ++k) tape.push_back((uint32_t) (mix64(0xF11E + (uint64_t) fi, (uint64_t) k) >> 13));
         Tape t(tape.data(), tape.size());
         GenOpts go; go.allow_big = false; go.sample_budget = 500; go.max_signals = 2;
-        Program p = gen_general(t, 10, go);
+        Program p;
+        if (fi >= 0) p = gen_general(t, 10, go);
+        else {
+            // a file whose UTC and annotation tracks have an index level: 12 irregular UTC anchors (decimate factor 10),
+            // 11 annotations, a little data - so that damage in the middle of a track leaves part of it readable
+            Tape e(nullptr, 0);
+            p.ops.push_back(gen_source(e, 1));
+            Op def = gen_signal(e, 5, 1, *dtype_by_name("f32"), DEF_MINIMAL);
+            def.annodf = 10; def.utcdf = 10; def.rate = 1000;
+            p.ops.push_back(def);
+            { Op w; w.op = "fsr"; w.sig = 5; w.sample_id = 100; w.n = 45; w.pat.kind = "random"; w.pat.seed = 8; w.poff = 0; p.ops.push_back(w); }
+            int64_t sid = 100, utc = 1000000;
+            for (int k = 0; k < 12; ++k) {
+                sid += 3 + (k * 7) % 5; utc += (int64_t) (1 << 20) * (3 + (k * 5) % 11);
+                Op u; u.op = "utc"; u.sig = 5; u.sample_id = sid; u.utc = utc; p.ops.push_back(u);
+                if (k < 11) { Op a; a.op = "anno"; a.sig = 5; a.ts = 100 + 4 * k; a.y = (float) k; a.atype = k % 3; a.group = 0; a.stor = 2; a.data.lit = {'a', (uint8_t) ('a' + k)}; p.ops.push_back(a); }
+            }
+        }
         p.close = true;
         vfs::reset();
         Model m;
+        g_base_path = "c04e.jls";
         ExecResult er = run_program(p, "c04e.jls", m, true);
         if (!er.err.empty()) continue;
         std::vector<uint8_t> base = vfs::get("c04e.jls");
@@ -358,7 +417,7 @@ std::string prop_enumerate(const std::string & tier, const std::string & outdir)
     res.set("evaluations", evals);
     res.set("distinct_nontrivial", nt);
     res.set("exhaustive", true);
-    res.set("bound", strf("every 1-, 2- and 3-bit pattern of a 32-byte chunk header incl. its CRC field (2,796,416 patterns) against jls_crc32c_hdr; every single-bit flip (%lld) of every byte of %d small generated file(s), each judged through the full reader dump", flips, nfiles));
+    res.set("bound", strf("every 1-, 2- and 3-bit pattern of a 32-byte chunk header incl. its CRC field (2,796,416 patterns) against jls_crc32c_hdr; every single-bit flip (%lld) of every byte of %d small file(s) (one built by hand with indexed UTC and annotation tracks, the others generated), each judged through the full reader dump and a windowed, retrying second pass", flips, nfiles + 1));
     res.set("violations", viol);
     mj::Value smp = mj::Value::array(); { mj::Value s = mj::Value::object(); s.set("fault", "flip bit 3 of byte 1234"); smp.push(s); }
     res.set("samples", smp);
